@@ -372,7 +372,7 @@ func TestC15(t *testing.T) {
 	if r.Violations() > 0 {
 		return
 	}
-	r.Rapid("triple", kit.Pick(3000, 200000), func(rt *rapid.T) {
+	r.Rapid("triple", kit.Pick(20000, 400000), func(rt *rapid.T) {
 		g, ok := genValidationCase(rt, 0)
 		if !ok {
 			rt.Skip("no case")
